@@ -129,10 +129,16 @@ class State(_train.Listener):
         ctx.count("consumer_steps")
         if self.decorated:
             ctx.count("decorated_consumer_steps")
+            # where the decoration records the indices is its own business (`_batchify.indices` today); an absent attribute
+            # cannot be read - the record is then judged by its effect on the constraint gradient (C14)
             rec = getattr(model._batchify, "indices", None)
-            if rec is None or [int(x) for x in rec] != [int(x) for x in ids]:
+            if rec is None:
+                ctx.count("recorded_indices_attribute_absent")
+            elif [int(x) for x in rec] != [int(x) for x in ids]:
                 ctx.violation("recorded-indices", "decorated-indices-wrong", observed={"recorded": rec, "true_ids": ids},
                               expected="equal")
+            else:
+                ctx.count("recorded_indices_checked")
         if self.Afull is None and Ac is not None and self.dynamic_path:
             # no full matrix went through _batchify although the objective received one: it was built some other way.
             # What counts is its content - the rows and columns `ids` of the full affinity of the data restricted to the
